@@ -745,25 +745,50 @@ pub fn replay(case: &Value, args: &Args) -> i32 {
     // the failing history is replayed alone in this fresh process, twice
     let idx: Vec<usize> = case["indices"].as_array().unwrap().iter().map(|x| x.as_u64().unwrap() as usize).collect();
     let ops = ops();
+    create_decoys();
     let shared = Shared::build();
     let regions = Regions::discover();
     let exclude = monitor_excludes();
     let mut outs = vec![];
     let mut snap = vec![];
     let mut mon = false;
+    let reset = || {
+        let _ = std::env::set_current_dir("/");
+        set_errno(0);
+        std::env::remove_var("TZ");
+        std::env::remove_var("TZDIR");
+    };
     for _round in 0..2 {
         let mut v = vec![];
+        reset();
         for &i in &idx {
+            if ops[i].perturb {
+                (ops[i].run)(&shared);
+                v.push(digest_of(""));
+                continue;
+            }
             regions.snapshot(&mut snap);
             let e0 = GETENV_CALLS.load(Ordering::Relaxed);
+            let r0 = RELATIVE_OPENS.load(Ordering::Relaxed);
             v.push(digest_of(&(ops[i].run)(&shared)));
-            if !regions.diff(&snap, &exclude).is_empty() || GETENV_CALLS.load(Ordering::Relaxed) != e0 {
+            if !regions.diff(&snap, &exclude).is_empty() || GETENV_CALLS.load(Ordering::Relaxed) != e0 || RELATIVE_OPENS.load(Ordering::Relaxed) != r0 {
                 mon = true;
             }
         }
         outs.push(v);
     }
-    let fresh: Vec<u64> = idx.iter().map(|&i| digest_of(&(ops[i].run)(&Shared::build()))).collect();
+    reset();
+    // digests the operations produced when run alone in fresh processes (recorded with the case)
+    if let Some(exp) = case["run_alone_digests"].as_array() {
+        for (k, e) in exp.iter().enumerate() {
+            if !ops[idx[k]].clock && e.as_str().and_then(|h| u64::from_str_radix(h, 16).ok()).map_or(false, |h| h != outs[0][k]) {
+                println!("operation {} ({}) differs from its run-alone result", k, ops[idx[k]].name);
+                mon = true;
+            }
+        }
+    }
+    let fresh: Vec<u64> = idx.iter().map(|&i| if ops[i].perturb { digest_of("") } else { digest_of(&(ops[i].run)(&Shared::build())) }).collect();
+    remove_decoys();
     println!("history {:?}\n digests round 1 {:x?}\n digests round 2 {:x?}\n digests of the same ops on fresh shared values (not a fresh process) {:x?}\n monitor alarm: {mon}", idx.iter().map(|&i| ops[i].name).collect::<Vec<_>>(), outs[0], outs[1], fresh);
     if mon || outs[0] != outs[1] || outs[0] != fresh {
         println!("REPLAY: violation reproduced");
